@@ -329,49 +329,78 @@ Definition obs_equiv (w : world) (k p : obs) : bool :=
   argv0_equiv w k p && obs_equiv_but_argv0 w k p.
 
 (* ---- RepeatedTimer bookkeeping ----------------------------------------------- *)
-(* one RepeatedTimer object: is_running and the number of its threading.Timer
-   threads that are started and neither fired nor cancelled *)
-Record rtimer := mkrt { rt_running : bool; rt_pending : nat }.
+(* RepeatedTimer._run is   is_running = False; start(); dump_func(outfile)   - the
+   timer is RE-ARMED BEFORE the dump (order RearmFirst).  The dump can take long (big
+   profile, slow or blocking output file), so main's rt.stop() can arrive while a
+   dump is in flight; the model therefore splits a firing into its start (up to
+   and including what precedes the dump) and the end of the dump.  The alternative
+   order (dump, then re-arm) is kept as DumpFirst so that the difference is a
+   theorem.  Granularity assumption: the statements before the dump are atomic with
+   respect to stop() (a window of two bytecodes, against the duration of a dump). *)
+Inductive rorder := RearmFirst | DumpFirst.
+Definition order_in_code : rorder := RearmFirst.
+
+(* one RepeatedTimer object: is_running, the number of its threading.Timer threads
+   that are started and neither fired nor cancelled, and the number of its dumps in
+   flight (timer threads inside _run) *)
+Record rtimer := mkrt { rt_running : bool; rt_pending : nat; rt_dumping : nat }.
 Definition rt_start (r : rtimer) : rtimer :=
-  if r.(rt_running) then r else mkrt true (S r.(rt_pending)).
-Definition rt_new : rtimer := rt_start (mkrt false 0).          (* __init__ ends in self.start() *)
-Definition rt_fire (r : rtimer) : rtimer :=                      (* _run, when a pending Timer fires *)
+  if r.(rt_running) then r else mkrt true (S r.(rt_pending)) r.(rt_dumping).
+Definition rt_new : rtimer := rt_start (mkrt false 0 0).         (* __init__ ends in self.start() *)
+Definition rt_fire_start (ord : rorder) (r : rtimer) : rtimer :=  (* a pending Timer fires: _run up to the dump *)
   match r.(rt_pending) with
   | O => r
-  | S n => rt_start (mkrt false n)
+  | S n => let r1 := mkrt false n (S r.(rt_dumping)) in
+           match ord with RearmFirst => rt_start r1 | DumpFirst => r1 end
   end.
-Definition rt_stop (r : rtimer) : rtimer := mkrt false (pred r.(rt_pending)).   (* _timer.cancel() *)
+Definition rt_dump_end (ord : rorder) (r : rtimer) : rtimer :=    (* a dump in flight returns: the rest of _run *)
+  match r.(rt_dumping) with
+  | O => r
+  | S d => let r1 := mkrt r.(rt_running) r.(rt_pending) d in
+           match ord with RearmFirst => r1 | DumpFirst => rt_start r1 end
+  end.
+Definition rt_fire (ord : rorder) (r : rtimer) : rtimer := rt_dump_end ord (rt_fire_start ord r).
+(* stop(): self._timer.cancel() - the latest Timer, a no-op if it has fired *)
+Definition rt_stop (r : rtimer) : rtimer := mkrt false (pred r.(rt_pending)) r.(rt_dumping).
 
 (* main's frame: the objects ever created and which one the local `rt` names *)
 Record tstate := mkts { ts_objs : list rtimer; ts_rt : option nat }.
-Inductive top := TCreate | TFire (i : nat) | TStopRt.
+(* what timer threads do (scheduled by the environment) / what main does *)
+Inductive thop := HFire (i : nat) | HFireStart (i : nat) | HDumpEnd (i : nat).
+Inductive top := TCreate | TStopRt | TThread (h : thop).
 Fixpoint upd {A} (l : list A) (i : nat) (f : A -> A) : list A :=
   match l, i with
   | [], _ => []
   | x :: t, O => f x :: t
   | x :: t, S j => x :: upd t j f
   end.
-Definition tstep (s : tstate) (op : top) : tstate :=
+Definition tstep (ord : rorder) (s : tstate) (op : top) : tstate :=
   match op with
   | TCreate => mkts (s.(ts_objs) ++ [rt_new]) (Some (length s.(ts_objs)))
-  | TFire i => mkts (upd s.(ts_objs) i rt_fire) s.(ts_rt)
+  | TThread (HFire i) => mkts (upd s.(ts_objs) i (rt_fire ord)) s.(ts_rt)
+  | TThread (HFireStart i) => mkts (upd s.(ts_objs) i (rt_fire_start ord)) s.(ts_rt)
+  | TThread (HDumpEnd i) => mkts (upd s.(ts_objs) i (rt_dump_end ord)) s.(ts_rt)
   | TStopRt => match s.(ts_rt) with
                | Some i => mkts (upd s.(ts_objs) i rt_stop) s.(ts_rt)
                | None => s
                end
   end.
-Definition trun (ops : list top) : tstate := fold_left tstep ops (mkts [] None).
-Definition live_threads (s : tstate) : nat := fold_right (fun r n => r.(rt_pending) + n)%nat O s.(ts_objs).
+Definition trun (ord : rorder) (ops : list top) : tstate := fold_left (tstep ord) ops (mkts [] None).
+(* the dumps in flight return (each re-arming or not, by the order), then: how
+   many Timer threads are still pending? *)
+Definition settle (ord : rorder) (r : rtimer) : rtimer := Nat.iter r.(rt_dumping) (rt_dump_end ord) r.
+Definition live_threads (ord : rorder) (s : tstate) : nat :=
+  fold_right (fun r n => (settle ord r).(rt_pending) + n)%nat O s.(ts_objs).
 
-(* the timer operations of a trace, with the firings `sched` that happen while
-   the program runs *)
-Fixpoint timer_ops (sched : list nat) (tr : list event) : list top :=
+(* the timer operations of a trace: `during` is what the timer threads do while the
+   program runs, `after` what they do once main has stopped the timer *)
+Fixpoint timer_ops (during : list thop) (tr : list event) : list top :=
   match tr with
   | [] => []
-  | ETimerCreate :: t => TCreate :: timer_ops sched t
-  | EProgram _ _ :: t => map TFire sched ++ timer_ops sched t
-  | ETimerStop :: t => TStopRt :: timer_ops sched t
-  | _ :: t => timer_ops sched t
+  | ETimerCreate :: t => TCreate :: timer_ops during t
+  | EProgram _ _ :: t => map TThread during ++ timer_ops during t
+  | ETimerStop :: t => TStopRt :: timer_ops during t
+  | _ :: t => timer_ops during t
   end.
-Definition live_after_main (sched : list nat) (tr : list event) : nat :=
-  live_threads (trun (timer_ops sched tr)).
+Definition live_after_main (ord : rorder) (during after : list thop) (tr : list event) : nat :=
+  live_threads ord (trun ord (timer_ops during tr ++ map TThread after)).
